@@ -47,6 +47,8 @@ pub fn run(opts: &HashMap<String, String>) -> i32 {
     let max_ops: usize = opt(opts, "ops", 40);
     let max_len: usize = opt(opts, "len", 48);
     let panics: bool = opts.contains_key("panics");
+    let scan: u32 = opt(opts, "scan", 0);
+    SCAN_MODE.with(|c| c.set(scan));
     trace::open(&out);
     trace::install_hooks("p");
     for id in first..first + count {
@@ -57,6 +59,101 @@ pub fn run(opts: &HashMap<String, String>) -> i32 {
     0
 }
 
+thread_local! {
+    /// 0: no scanner calls; 1: whitespace/newline/fixed helpers (C16); 2: digit scanners (C13); 3: both
+    static SCAN_MODE: std::cell::Cell<u32> = const { std::cell::Cell::new(0) };
+}
+
+const TEXT_ALPHABET: &[u8] = b"  \t\t\r\n\n0123456789012345678999--px c\xca\xcf:/";
+
+/// most-significant-first hex digits of a magnitude, extracted by shifting only
+fn hex_digits(mag: u128) -> Vec<u8> {
+    let mut v = vec![];
+    let mut started = false;
+    for i in (0..32).rev() {
+        let d = ((mag >> (4 * i)) & 0xf) as u8;
+        if d != 0 || started || i == 0 {
+            started = true;
+            v.push(d);
+        }
+    }
+    v
+}
+
+macro_rules! digits_call {
+    ($reader:expr, $off:expr, $f:expr, $ty:ty, signed) => {{
+        let r: (Option<$ty>, usize) = match $f {
+            "ascii_digits" => flussab::text::ascii_digits::<$ty>($reader, $off),
+            "ascii_digits_multi" => flussab::text::ascii_digits_multi::<$ty>($reader, $off),
+            "signed_ascii_digits" => flussab::text::signed_ascii_digits::<$ty>($reader, $off),
+            _ => flussab::text::signed_ascii_digits_multi::<$ty>($reader, $off),
+        };
+        (r.0.map(|v| (v < 0, (v as i128).unsigned_abs())), r.1)
+    }};
+    ($reader:expr, $off:expr, $f:expr, $ty:ty, unsigned) => {{
+        let r: (Option<$ty>, usize) = match $f {
+            "ascii_digits" => flussab::text::ascii_digits::<$ty>($reader, $off),
+            "ascii_digits_multi" => flussab::text::ascii_digits_multi::<$ty>($reader, $off),
+            "signed_ascii_digits" => flussab::text::signed_ascii_digits::<$ty>($reader, $off),
+            _ => flussab::text::signed_ascii_digits_multi::<$ty>($reader, $off),
+        };
+        (r.0.map(|v| (false, v as u128)), r.1)
+    }};
+}
+
+pub const INT_TYPES: [&str; 12] = ["i8", "i16", "i32", "i64", "i128", "isize", "u8", "u16", "u32", "u64", "u128", "usize"];
+
+pub fn digits_dispatch(reader: &mut DeferredReader, f: &str, ty: &str, off: usize) -> (Option<(bool, u128)>, usize) {
+    match ty {
+        "i8" => digits_call!(reader, off, f, i8, signed),
+        "i16" => digits_call!(reader, off, f, i16, signed),
+        "i32" => digits_call!(reader, off, f, i32, signed),
+        "i64" => digits_call!(reader, off, f, i64, signed),
+        "i128" => digits_call!(reader, off, f, i128, signed),
+        "isize" => digits_call!(reader, off, f, isize, signed),
+        "u8" => digits_call!(reader, off, f, u8, unsigned),
+        "u16" => digits_call!(reader, off, f, u16, unsigned),
+        "u32" => digits_call!(reader, off, f, u32, unsigned),
+        "u64" => digits_call!(reader, off, f, u64, unsigned),
+        "u128" => digits_call!(reader, off, f, u128, unsigned),
+        _ => digits_call!(reader, off, f, usize, unsigned),
+    }
+}
+
+/// one scanner call on `reader`, recorded as scall / (src)* / sret
+pub fn scan_op(reader: &mut DeferredReader, f: &str, ty: &str, off: usize, pat: &[u8]) {
+    trace::rec(json!({"ev":"scall","fn":f,"off":off,"pat":bytes_json(pat),"ty":ty}));
+    let base = json!({"ev":"sret","fn":f,"off":off,"pat":bytes_json(pat),"ty":ty,"panic":false,
+        "end":0,"some":false,"neg":false,"hex":[0]});
+    let r = catch(|| match f {
+        "tabs_or_spaces" => (None, flussab::text::tabs_or_spaces(reader, off)),
+        "newline" => (None, flussab::text::newline(reader, off)),
+        "next_newline" => (None, flussab::text::next_newline(reader, off)),
+        "fixed" => (None, flussab::text::fixed(reader, off, pat)),
+        _ => {
+            let (v, e) = digits_dispatch(reader, f, ty, off);
+            (Some(v), e)
+        }
+    });
+    let mut rec = base;
+    match r {
+        Ok((None, end)) => rec["end"] = json!(end),
+        Ok((Some(v), end)) => {
+            rec["end"] = json!(end);
+            if let Some((neg, mag)) = v {
+                rec["some"] = json!(true);
+                rec["neg"] = json!(neg);
+                rec["hex"] = bytes_json(&hex_digits(mag));
+            }
+        }
+        Err(m) => {
+            rec["panic"] = json!(true);
+            rec["msg"] = json!(m);
+        }
+    }
+    trace::rec(merge(rec, state(reader)));
+}
+
 pub fn one_history(id: u64, seed: u64, max_ops: usize, max_len: usize, panics: bool) {
     let mut rng = crate::rng(seed, id);
     let len = if rng.gen_range(0..10) == 0 {
@@ -64,7 +161,55 @@ pub fn one_history(id: u64, seed: u64, max_ops: usize, max_len: usize, panics: b
     } else {
         rng.gen_range(0..=max_len)
     };
-    let full: Vec<u8> = (0..len).map(|_| rng.gen_range(1..=255u8)).collect();
+    let scan = SCAN_MODE.with(|c| c.get());
+    let full: Vec<u8> = if scan > 0 {
+        let mut v = Vec::with_capacity(len);
+        while v.len() < len {
+            // runs of digits of interesting lengths (7, 8, 9, 15..17) now and then
+            if scan >= 2 && rng.gen_range(0..8) == 0 {
+                // a numeral on or next to the boundary of some integer type (input generation only:
+                // the expected result is computed by the specification from the bytes)
+                let bits = [8u32, 16, 32, 64, 128][rng.gen_range(0..5)];
+                let signed = rng.gen_bool(0.6);
+                let (mag, neg): (u128, bool) = if signed {
+                    if rng.gen_bool(0.5) { (1u128 << (bits - 1), true) } else { ((1u128 << (bits - 1)) - 1, false) }
+                } else {
+                    (if bits == 128 { u128::MAX } else { (1u128 << bits) - 1 }, rng.gen_bool(0.1))
+                };
+                let delta = rng.gen_range(0..4);
+                let text = match delta {
+                    0 => mag.to_string(),
+                    1 => match mag.checked_add(1) { Some(m) => m.to_string(), None => format!("{}0", mag) },
+                    2 => (mag - 1).to_string(),
+                    _ => format!("{}{}", mag, rng.gen_range(0..10)),
+                };
+                if neg {
+                    v.push(b'-');
+                }
+                for _ in 0..[0usize, 0, 0, 1, 3, 5, 8][rng.gen_range(0..7)] {
+                    v.push(b'0');
+                }
+                v.extend_from_slice(text.as_bytes());
+                v.push(TEXT_ALPHABET[rng.gen_range(0..TEXT_ALPHABET.len())]);
+            } else if scan >= 2 && rng.gen_range(0..6) == 0 {
+                let n = [1usize, 2, 3, 5, 7, 8, 9, 10, 15, 16, 17, 20, 39, 40][rng.gen_range(0..14)];
+                if rng.gen_bool(0.3) {
+                    v.push(b'-');
+                }
+                let lead = if rng.gen_bool(0.2) { b'0' } else { b'1' + rng.gen_range(0..9) };
+                v.push(lead);
+                for _ in 1..n {
+                    v.push(b'0' + rng.gen_range(0..10));
+                }
+            } else {
+                v.push(TEXT_ALPHABET[rng.gen_range(0..TEXT_ALPHABET.len())]);
+            }
+        }
+        v.truncate(len);
+        v
+    } else {
+        (0..len).map(|_| rng.gen_range(1..=255u8)).collect()
+    };
     let faulty = rng.gen_range(0..3) == 0;
     let limit = if faulty || rng.gen_range(0..4) == 0 {
         rng.gen_range(0..=len)
@@ -128,6 +273,38 @@ pub fn one_history(id: u64, seed: u64, max_ops: usize, max_len: usize, panics: b
             rng.gen_range(0..100)
         };
         first_op = false;
+        if scan > 0 && rng.gen_range(0..100) < 45 {
+            let off = if rng.gen_bool(0.6) { 0 } else { rng.gen_range(0..=6usize) };
+            let helpers = ["tabs_or_spaces", "newline", "next_newline", "fixed"];
+            let digits = ["ascii_digits", "ascii_digits_multi", "signed_ascii_digits", "signed_ascii_digits_multi"];
+            let f = match scan {
+                1 => helpers[rng.gen_range(0..4)],
+                2 => digits[rng.gen_range(0..4)],
+                _ => if rng.gen_bool(0.5) { helpers[rng.gen_range(0..4)] } else { digits[rng.gen_range(0..4)] },
+            };
+            let mut pat: Vec<u8> = vec![];
+            if f == "fixed" {
+                let plen = rng.gen_range(0..=4usize);
+                // mostly a prefix of what is really there (possibly with the last byte changed)
+                let p0 = reader.position() + off;
+                if rng.gen_bool(0.7) && p0 < stream.len() {
+                    pat = stream[p0..(p0 + plen).min(stream.len())].to_vec();
+                    if rng.gen_bool(0.3) {
+                        if let Some(l) = pat.last_mut() {
+                            *l = b'q';
+                        }
+                    }
+                    if rng.gen_bool(0.15) {
+                        pat.push(b'z');
+                    }
+                } else {
+                    pat = (0..plen).map(|_| TEXT_ALPHABET[rng.gen_range(0..TEXT_ALPHABET.len())]).collect();
+                }
+            }
+            let ty = INT_TYPES[rng.gen_range(0..12)];
+            scan_op(&mut reader, f, ty, off, &pat);
+            continue;
+        }
         match choice {
             0..=9 => {
                 let c = [1usize, 1, 2, 2, 3, 4, 5, 8, 16, 64][rng.gen_range(0..10)];
